@@ -62,14 +62,18 @@ static _Thread_local unsigned sw_state;
 static _Thread_local int sw_init;
 static _Atomic unsigned long sw_count;
 
+/* initialised before any thread exists (the monitor must not be the race) */
+__attribute__((constructor)) static void
+shortwrite_init(void)
+{
+	const char *e = getenv("RTDRV_SHORTWRITE");
+	shortwrite_seed = e ? (unsigned) atoi(e) : 0;
+	shortwrite_on = e != NULL;
+}
+
 ssize_t
 write(int fd, const void *buf, size_t n)
 {
-	if (shortwrite_on < 0) {
-		const char *e = getenv("RTDRV_SHORTWRITE");
-		shortwrite_seed = e ? (unsigned) atoi(e) : 0;
-		shortwrite_on = e != NULL;
-	}
 	if (shortwrite_on && n > 1 && fd > 2) {
 		if (!sw_init) {
 			sw_state = shortwrite_seed * 2654435761u + (unsigned) syscall(SYS_gettid) * 40503u;
